@@ -17,6 +17,12 @@ Inductive case :=
 | CCase (p : pt) (drop : list ident) (names : list ident)
         (values : list (ident * Q)) (out : outcome)
         (values2 : list (ident * Q)) (out2 : outcome) (same : bool)
+(* a *history*: `create_program` called several times, in this order, on the very same template object (the model and
+   the specification are functions of the tree and the assignment, so every call is judged on its own: nothing a
+   previous call left behind may matter); `same`: calls with identical assignments that returned a program returned
+   equal programs *)
+| CHist (p : pt) (drop : list ident) (names : list ident)
+        (steps : list (list (ident * Q) * outcome)) (same : bool)
 | CCrash.
 
 Definition outcome_eqb (a b : outcome) : bool :=
@@ -53,6 +59,9 @@ Definition check_corr (c : case) : bool :=
       set_eqb (pnames (construct p)) names
       && outcome_match names values (outcome_of (create_program p values drop)) out
       && outcome_match names values2 (outcome_of (create_program p values2 drop)) out2
+  | CHist p drop names steps _ =>
+      set_eqb (pnames (construct p)) names
+      && forallb (fun s => outcome_match names (fst s) (outcome_of (create_program p (fst s) drop)) (snd s)) steps
   | CCrash => false
   end.
 
@@ -64,6 +73,8 @@ Definition check_corr_exact (c : case) : bool :=
   | CCase p drop names values out values2 out2 _ =>
       outcome_eqb (outcome_of (create_program p values drop)) out
       && outcome_eqb (outcome_of (create_program p values2 drop)) out2
+  | CHist p drop names steps _ =>
+      forallb (fun s => outcome_eqb (outcome_of (create_program p (fst s) drop)) (snd s)) steps
   | CCrash => false
   end.
 
@@ -103,6 +114,14 @@ Definition check_spec (c : case) : bool :=
       && spec_one p drop names values2 out2
       (* (b) values of undeclared names never change the result: same kind of outcome, equal programs *)
       && (if agree_on names values values2 then outcome_eqb out out2 && same else true)
+  | CHist p drop names steps same =>
+      (* every call of the history obeys (a), (c), (d) on its own assignment, whatever was instantiated before;
+         (b) along the history: two calls that agree on the declared names have the same kind of outcome, and equal
+         programs (`same`, compared by the harness for identical assignments) *)
+      forallb (fun s => spec_one p drop names (fst s) (snd s)) steps
+      && forallb (fun s1 => forallb (fun s2 => if agree_on names (fst s1) (fst s2)
+                                               then outcome_eqb (snd s1) (snd s2) else true) steps) steps
+      && same
   | CCrash => false
   end.
 
@@ -112,5 +131,6 @@ Definition check_guard (c : case) : bool :=
   match c with
   | CCase p drop _ values _ values2 _ _ =>
       guard_C03_function_zero p (env_of values) drop && guard_C03_function_zero p (env_of values2) drop
+  | CHist p drop _ steps _ => forallb (fun s => guard_C03_function_zero p (env_of (fst s)) drop) steps
   | CCrash => true
   end.
